@@ -66,6 +66,12 @@ type multiUseList []*multiUseEntry
 // channel. if the closure returns a list, the list is evaluated before it is
 // sent to the result channel.
 func (mu *multiUseEntry) runConsumer(itera iterator.Producer[Value], done func(error)) {
+	// this method runs in its own goroutine, a panic would terminate the process
+	defer func() {
+		if rec := recover(); rec != nil {
+			done(panicToError(rec))
+		}
+	}()
 	st := funcGen.NewEmptyStack[Value]()
 	used := false
 	var innerErr error
